@@ -48,7 +48,12 @@ struct Harness {
    {
       std::unique_ptr<char8_t[]> buf(new char8_t[s.size() ? s.size() : 1]);
       std::memcpy(buf.get(), s.data(), s.size());
-      const String& n = lex.get_string(util::word_view(buf.get(), s.size()));
+      return intern_view(util::word_view(buf.get(), s.size()), s, family);
+   }
+   // intern the bytes `v` designates (wherever they live: the caller's buffer, or the pool's own storage); `s` = the same bytes
+   const String& intern_view(util::word_view v, const std::string& s, const char* family)
+   {
+      const String& n = lex.get_string(v);
       ++interned; bytes_total += (long long)s.size();
       ctx().count(std::string("interned:") + family);
       auto w = n.characters();
@@ -351,6 +356,36 @@ static void pool_boundaries_workload(Harness& H, int rollovers, bool thorough)
    H.checkpoint(true);
 }
 
+// Words given as views into the pool's own storage: the front, the tail and the middle of the characters of a word that
+// was handed out just before (no other word in between) and of words handed out long before.  What is asked is what the
+// view covers; where the bytes happen to live is irrelevant.
+static void own_storage_workload(Harness& H, bool thorough)
+{
+   std::vector<std::string> hosts { "integer", "voidness", "longest", "charter", "intint", "classes", "unsigned long longer", "C++20", "thistle", "autos", "a", "ab" };
+   for (int i = 0; i < (thorough ? 400 : 60); ++i) hosts.push_back(H.unique_bytes(2 + H.rng.below(i % 10 == 0 ? 70000 : 60), 0x5000000u + std::uint64_t(i)));
+   std::vector<const String*> earlier;
+   for (auto& w : hosts) {
+      const String& host = H.intern(w, "host-of-views");
+      earlier.push_back(&host);
+      const auto chars = host.characters();
+      // right after the host was handed out
+      std::vector<std::pair<std::size_t, std::size_t>> cuts { { 0, 1 }, { 0, chars.size() - 1 }, { 0, chars.size() / 2 }, { 0, 3 }, { 0, 4 }, { 1, chars.size() - 1 }, { chars.size() / 2, chars.size() - chars.size() / 2 }, { 1, 1 }, { 0, chars.size() } };
+      for (auto [from, len] : cuts) {
+         if (from + len > chars.size() || len == 0) continue;
+         H.intern_view(chars.substr(from, len), w.substr(from, len), from == 0 ? "front-of-a-word-in-the-pool" : "inside-a-word-in-the-pool");
+         ctx().count("views_into_pool_storage");
+      }
+      // and into a word handed out long before
+      if (earlier.size() > 3) {
+         const String& old = *earlier[H.rng.below(earlier.size() - 1)];
+         auto oc = old.characters(); std::size_t len = 1 + H.rng.below(oc.size());
+         H.intern_view(oc.substr(0, len), narrow(oc.substr(0, len)), "front-of-an-older-word-in-the-pool");
+         ctx().count("views_into_pool_storage");
+      }
+   }
+   H.checkpoint(true);
+}
+
 static void oversize_workload(Harness& H, bool thorough)
 {
    std::uint64_t tag = 1u << 29;
@@ -390,7 +425,7 @@ static void body(Ctx& C)
           "all earlier Strings are re-read (address, length, bytes) and storage intervals [header,end) are checked pairwise disjoint");
    C.assume("storage interval of a dynamic word = 8-byte length header immediately before characters() (pinned layout), used only for the overlap check");
    for (auto k : { "pool_rollovers", "oversize_own_pool", "oversize_fitted_current_pool", "boundary_requests_rolled_over", "boundary_requests_fitted",
-                   "equal_hash_chains_verified", "equal_hash_prefix_chains_verified", "words_given_an_equal_hash_neighbour", "re_interned", "rechecks", "interval_checks", "reserved_words_checked", "interned:reserved-near-miss", "first_pool_filled_exactly" }) C.need(k);
+                   "equal_hash_chains_verified", "equal_hash_prefix_chains_verified", "words_given_an_equal_hash_neighbour", "re_interned", "rechecks", "interval_checks", "reserved_words_checked", "interned:reserved-near-miss", "first_pool_filled_exactly", "views_into_pool_storage" }) C.need(k);
    {  // a completely empty first pool: words that fill it exactly, or miss by one byte
       for (long long n : { (1LL << 20) - 8, (1LL << 20) - 7, (1LL << 20) - 24, (1LL << 20) - 9 }) {
          Harness F(C.seed + 17 + std::uint64_t(n));
@@ -406,6 +441,7 @@ static void body(Ctx& C)
    lengths_workload(H, C.thorough);
    reserved_and_empty(H, other);
    collisions_workload(H, C.thorough);
+   own_storage_workload(H, C.thorough);
    pool_boundaries_workload(H, C.thorough ? 60 : 10, C.thorough);
    oversize_workload(H, C.thorough);
    // random words, then everything again in random order
